@@ -30,6 +30,7 @@ def check(c: Check):
     clause_k(c)
     clause_l(c)
     clause_m(c)
+    clause_n(c)
     clause_a(c)
     clause_b(c)
     clause_c(c)
@@ -1001,3 +1002,37 @@ def clause_m(c: Check):
                                  'the kind of quoting is read from character %s of the source text, not from the opening '
                                  'quote' % unparse(side.slice), f.loc())
     c.floor('C09-m', 'places where Token reads the quote character', n, 2)
+
+
+# ---------------------------------------------------------------- n
+def clause_n(c: Check):
+    """TS of the lexer of a token stream: a lexer that has raised (an unbalanced quote in a here-document body or a
+    `:>` text is legal - the error only says that the head token cannot be read as a token) is in an undefined state,
+    with the partial token buffered; before the stream is used again it is REPLACED by a new one from the lexer
+    factory - in every handler of an exception of `get_token()`.  Otherwise the tokens that follow on later lines of
+    the same instruction come out garbled and a valid instruction is a syntax error."""
+    ix = c.ix
+    ts = ix.cls(TS + ':TokenStream')
+    nl = ix.func(TS + ':TokenStream._new_lexer')
+    n = 0
+    for f in ts.methods.values():
+        for tr in walk_own(f.node):
+            if not isinstance(tr, ast.Try):
+                continue
+            reads = [x for st_ in tr.body for x in ast.walk(st_)
+                     if isinstance(x, ast.Call) and isinstance(x.func, ast.Attribute) and x.func.attr == 'get_token']
+            if not reads:
+                continue
+            for h in tr.handlers:
+                n += 1
+                renewed = False
+                for x in ast.walk(h):
+                    if isinstance(x, ast.Assign) and any(isinstance(t_, ast.Attribute) and t_.attr == '_lexer' for t_ in x.targets) \
+                            and isinstance(x.value, ast.Call) and ix.callee(f.module, f, x.value) is nl:
+                        renewed = True
+                raises = any(isinstance(x, ast.Raise) for x in ast.walk(h))
+                c.expect(renewed or raises, 'C09-n', 'lexer-replaced-after-it-raised/%s' % f.key,
+                         'after `get_token()` has raised the stream keeps using the same lexer (it is not replaced by '
+                         '_new_lexer()): the tokens after an unbalanced quote in a here-document body are garbled',
+                         '%s:%d' % (f.module.relpath, h.lineno))
+    c.floor('C09-n', 'handlers of a failing get_token()', n, 1)
